@@ -465,9 +465,10 @@ def rule_reset(ctx: Ctx) -> None:
             if p.endswith(".start") and c.args:
                 recv = p[: -len(".start")]
                 # loop variable → the iterated collection
-                for st in walk_stmts(fn.node.body):
-                    if isinstance(st, ast.For) and path_of(st.target) == recv:
-                        recv = path_of(st.iter) or recv
+                # (the loop that *encloses* this call: two loops may reuse one variable name)
+                encl = [st for st in walk_stmts(fn.node.body) if isinstance(st, ast.For) and path_of(st.target) == recv and any(y is c for y in ast.walk(st))]
+                if encl:
+                    recv = path_of(encl[-1].iter) or recv
                 out.add(recv.replace(prefix, "sim."))
             if p.endswith("_replay_pre_run_events"):
                 out.add("sim.<pre-run events>")
